@@ -7,6 +7,7 @@
 import Cosi.Driver.Store
 import Cosi.Driver.Watch
 import Cosi.Driver.Helpers
+import Cosi.Driver.KeyStorage
 
 open Cosi
 
@@ -18,7 +19,8 @@ structure Engine where
 def engines : List (String × Engine) := [
   ("store-seq", ⟨Driver.Store.St, Driver.Store.init, Driver.Store.stepLine⟩),
   ("watch", ⟨WSys, Driver.Watch.init, Driver.Watch.stepLine⟩),
-  ("helpers", ⟨HSys, Driver.Helpers.init, Driver.Helpers.stepLine⟩)
+  ("helpers", ⟨HSys, Driver.Helpers.init, Driver.Helpers.stepLine⟩),
+  ("keystorage", ⟨Driver.KeyStorage.St, Driver.KeyStorage.init, Driver.KeyStorage.stepLine⟩)
 ]
 
 partial def loop (e : Engine) (spec : Bool) (inp : IO.FS.Stream) (out : IO.FS.Stream) (st : e.σ) : IO Unit := do
